@@ -541,7 +541,17 @@ func (g *coreGen) stmts(ind, depth, n int, vars []gvar, rets []string) []gvar {
 				g.line(ind+1, "}")
 				g.kinds["range body writes a later element"]++
 			}
-			inner := append(append([]gvar{}, local...), gvar{kv, "key"})
+			// the ranged slice itself is not visible to the generated body: the loop reads the array the slice had at
+			// loop start, and whether an append in the body moves later writes to a NEW array depends on the capacity
+			// growth policy, which Go leaves to the implementation (thorough false alarm: `v = append(v, 8, 0)` followed
+			// by `v[k+1] += e` inside `for k, e := range v`)
+			inner := []gvar{}
+			for _, lv := range local {
+				if lv.name != ranged {
+					inner = append(inner, lv)
+				}
+			}
+			inner = append(inner, gvar{kv, "key"})
 			g.inLoop++
 			g.stmts(ind+1, depth-1, g.r.intn(3), inner, rets)
 			g.inLoop--
